@@ -391,7 +391,7 @@ class AConc(ABase):
 
 class Job:
     def __init__(self, prop, name, build, body, fresh_empty=False, timeout_s=600, extra_patches=None,
-                 max_decisions=20000, solver_timeout_ms=30000, funcs=(), bounds=None, exc_policy='skip',
+                 max_decisions=100000, solver_timeout_ms=30000, funcs=(), bounds=None, exc_policy='skip',
                  lattice=10, xval=True, exact_floats=True):
         self.prop = prop
         self.name = name
